@@ -93,6 +93,9 @@ func vfGenC01(r *vfRand, id int) *vfWorldCase {
 		cfg.Excluded = []string{"/assets/", "/health"}
 	}
 	cfg.LongKeys = r.chance(1, 4) // two deployments whose long keys differ only in their last characters
+	if !cfg.LongKeys && r.chance(1, 6) {
+		cfg.KeyStyle = vfPick(r, "newline", "padded", "blank")
+	}
 	// where the browser lands after a logout is no statement about what is public
 	cfg.PostLogout = vfPick(r, "", "", "/", "/?logged_out=1", "/#/bye", "https://www.example.com/", "/bye", "https://www.example.org", "/public-landing", "/app")
 	cs := &vfWorldCase{ID: id, Kind: "gate", Script: vfScript{Cfg: cfg, Browsers: 2}}
@@ -399,7 +402,7 @@ func vfGenC04(r *vfRand, id int) *vfWorldCase {
 				StateMode: vfPick(r, "own", "own", "garbage", "absent"), CodeMode: vfPick(r, "reused", "reused", "garbage", "absent"), Script: sc})
 			continue
 		}
-		acts = append(acts, vfReqAct(0, slot(), vfPick(r, "GET", "GET", "POST", "HEAD", "PUT"), vfPaths[r.intn(len(vfPaths))], 1, func(q *vfReq) {
+		acts = append(acts, vfReqAct(0, slot(), vfPick(r, "GET", "GET", "POST", "HEAD", "PUT", "OPTIONS", "OPTIONS", "DELETE", "PATCH", "PROPFIND"), vfPaths[r.intn(len(vfPaths))], 1, func(q *vfReq) {
 			q.AcceptJS = r.chance(1, 4)
 		}))
 	}
@@ -488,6 +491,9 @@ func vfGenC06(r *vfRand, id int) *vfWorldCase {
 		}
 		t.Groups = vfClaimShapes[r.intn(len(vfClaimShapes))]
 		t.Roles = vfClaimShapes[r.intn(len(vfClaimShapes))]
+		if r.chance(1, 3) { // tokens of every size class: a refresh may cross the single-cookie / chunked boundary in either direction
+			t.Pad, t.PadRandom = []int{1200, 2500, 6000}[r.intn(3)], true
+		}
 		return t
 	}
 	acts := vfLogin(0, 0, "/app", vfOkScript(mk()))
@@ -813,6 +819,9 @@ func vfGenC09(r *vfRand, id int) *vfWorldCase {
 	// a stable session (no refresh due) whose cookies the deployment has already seen in ordinary
 	// requests; then what it emitted is modified, renamed or moved between two browsers
 	cfg := vfWorldCfg{PKCE: r.chance(1, 2), ForceHTTPS: r.chance(1, 2), EndSession: true, GraceSec: 60, LongKeys: r.chance(1, 3)}
+	if r.chance(1, 4) {
+		cfg.LongKeys, cfg.KeyStyle = false, vfPick(r, "newline", "padded", "blank")
+	}
 	cs := &vfWorldCase{ID: id, Kind: "cookie-tamper", Script: vfScript{Cfg: cfg, Browsers: 2}}
 	mk := func() *vfTokenScript {
 		sc := vfOkScript(vfSizedTok(r, vfSizes[r.intn(len(vfSizes))], r.chance(2, 3)))
@@ -884,7 +893,13 @@ func vfCorpusC09() []*vfWorldCase {
 			vfGated(0, 0, "/app", 1), {Kind: "tamper", Browser: 0, Tamper: "plant"}, vfGated(0, 0, "/app/2", 1), vfGated(0, 0, "/logout", 1), vfGated(0, 0, "/", 1)}
 		return &vfWorldCase{Kind: "corpus", Script: vfScript{Cfg: vfWorldCfg{EndSession: true, GraceSec: 60}, Browsers: 1, Actions: acts}}
 	}
-	return append(vfCorpusC07(), swap("a", "r"), swap("m", "a"), swap("r", "m"), other(false), other(true), pub(),
+	// keys that differ from another deployment's only by white space around them, and a key that is nothing but blanks
+	styled := func(style string) *vfWorldCase {
+		c := other(false)
+		c.Script.Cfg.KeyStyle = style
+		return c
+	}
+	return append(vfCorpusC07(), swap("a", "r"), swap("m", "a"), swap("r", "m"), other(false), other(true), pub(), styled("newline"), styled("padded"), styled("blank"),
 		plant("/"), plant("/app"), plant("/reports/deep?filter="+strings.Repeat("v", 1500)), plant("/reports/"+strings.Repeat("d/", 700)+"x"))
 }
 
@@ -899,6 +914,16 @@ func vfGenC10(r *vfRand, id int) *vfWorldCase {
 		cfg.Templates = []vfTemplate{{"X-Email-Copy", "{{.Claims.email}}"}, {"X-Deep", "{{.Claims.realm.roles}}"}, {"X-Tok", "Bearer {{.AccessToken}}"}}
 	case 3:
 		cfg.Templates = []vfTemplate{{"X-First-Group", "{{index .Claims.groups 0}}"}, {"X-Fail", "{{.Claims.missing.deeper}}"}}
+	}
+	if len(cfg.Templates) > 0 && r.chance(1, 2) { // header names as operators type them: not in canonical MIME case
+		for i := range cfg.Templates {
+			switch r.intn(3) {
+			case 0:
+				cfg.Templates[i].Name = strings.ToLower(cfg.Templates[i].Name)
+			case 1:
+				cfg.Templates[i].Name = strings.ToUpper(cfg.Templates[i].Name)
+			}
+		}
 	}
 	if r.chance(1, 3) { // a template that fails AFTER it produced output (org is a string for some users), followed by one that works
 		cfg.Templates = append([]vfTemplate{{"X-Org-Info", "{{.Claims.email}}|{{.Claims.org.id}}"}}, cfg.Templates...)
@@ -1112,6 +1137,10 @@ func vfGenC15(r *vfRand, id int) *vfWorldCase {
 	uri := vfEvilURIs[r.intn(len(vfEvilURIs))]
 	if r.chance(1, 4) {
 		uri = "/long/" + strings.Repeat("x", 200+r.intn(3000)) + "?q=//evil.example"
+	}
+	if r.chance(1, 5) { // hostile starts on URIs longer than what is remembered in full
+		uri = vfPick(r, "/%09/evil.example/", "/%0d/evil.example/", "/%0a/evil.example/x", "/%5Cevil.example/", "/%2Fevil.example/", "//evil.example/", "/%09%2Fevil.example") +
+			"?pad=" + strings.Repeat("a", []int{900, 1010, 1100, 2500}[r.intn(4)])
 	}
 	mod := func(q *vfReq) {
 		if r.chance(1, 3) {
